@@ -77,6 +77,13 @@
   thresholds; rows for missing join values (C08) and the non-key, non-score columns (C09/C11) — for these the pipeline
   and the join agree by those properties separately; both-empty pairs (C09: the join lists them iff `allow_empty`,
   the pipeline iff the filter lists them, with score 1.0 = exact-match shortcut); straddling pairs.
+
+  KNOWN FINDING K6 (why `t.returnSet = true` is a hypothesis).  The joins switch the supplied tokenizer to set mode for the
+  duration of the call; `filter_tables` and `apply_matcher` use it as it is.  With a tokenizer in BAG mode (py_stringmatching's
+  default) and a value with repeated tokens the pipeline "with the same tokenizer" differs from the join on the REAL code:
+  `jaccard_join('a a a a b', 'a b')` at 0.8 returns the pair (score 1.0), `SizeFilter(tok, 'JACCARD', 0.8).filter_tables`
+  drops it (5 tokens against 2).  The filters document the set-tokenizer assumption (C04 states it), C07's wording does not;
+  recorded in /verif/known_findings.json, exercised as the fixed first case of the pipeline oracle.
 -/
 import SSJ.Proofs.EntryPipeline
 import SSJ.Props.C03
